@@ -185,6 +185,9 @@ def freeze_correspondence(ctx, progs, found_by):
                 req_l, req_g, real_l, real_g, already, frozen_after_locals, n = freeze_corr.requests_for(src, rl, pl, rg, pg)
             except (SyntaxError, RecursionError):
                 break
+            except Exception as e:
+                ctx.add_broken('correspondence', 'freeze:' + ident, 'could not observe allow_rename_locals / allow_rename_globals: %s: %s' % (e.__class__.__name__, str(e)[:200]))
+                break
             reqs += [req_l, req_g]
             meta.append((ident, src, (rl, pl, rg, pg), real_l, real_g, already, frozen_after_locals, n))
     answers = ctx.driver.ask(reqs) if reqs else []
@@ -222,6 +225,10 @@ def taint_correspondence(ctx, progs, found_by):
         try:
             req, before, after, n = taint_corr.request_for(src)
         except (SyntaxError, RecursionError):
+            continue
+        except Exception as e:
+            # the scope analysis changed shape under the harness: not a verdict, a broken tie (the oracle stages decide)
+            ctx.add_broken('correspondence', 'taint.names:' + ident, 'could not observe resolve_names: %s: %s' % (e.__class__.__name__, str(e)[:200]))
             continue
         reqs.append(req)
         meta.append((ident, src, before, after, n))
